@@ -63,7 +63,7 @@ def make_host(cfg):
                 self.child = Child()
                 self.e = {"k": Child()}
 
-        return Host
+        return derive(cfg, Host)
     @spec_class
     class SChild:
         x: int = 1
@@ -88,6 +88,17 @@ def make_host(cfg):
         "a": alias,
     }
     Host = spec_class(type("SHost", (), ns))
+    return derive(cfg, Host)
+
+
+def derive(cfg, Host):
+    """the alias is declared by Host; the instances that are used may be of a subclass (decorated or not)"""
+    from spec_classes import spec_class
+
+    if cfg.get("derive") == "spec_sub":
+        return spec_class(type(Host.__name__ + "Sub", (Host,), {"__annotations__": {"extra": int}, "extra": 0}))
+    if cfg.get("derive") == "plain_sub":
+        return type(Host.__name__ + "Plain", (Host,), {})
     return Host
 
 
@@ -253,7 +264,8 @@ def fam(e):
 def fingerprint(obj, path):
     d = dict(vars(obj))
     # class-level state the implementation could (wrongly) mutate is part of the state too
-    out = [("<alias.fallback>", repr(getattr(vars(type(obj)).get("a"), "fallback", None)))]
+    alias = next((vars(k)["a"] for k in type(obj).__mro__ if "a" in vars(k)), None)
+    out = [("<alias.fallback>", repr(getattr(alias, "fallback", None)))]
     for k, v in sorted(d.items()):
         if hasattr(v, "__dict__") and not isinstance(v, type):
             out.append((k, sorted((kk, repr(vv)) for kk, vv in vars(v).items())))
@@ -477,14 +489,15 @@ def main(run):
     cfgs = []
     for host, dep, pt, tr, fb, path in itertools.product(("plain", "spec"), (False, True), (False, True), (False, True),
                                                          (False, True), PATHS):
-        cfgs.append({"host": host, "deprecated": dep, "passthrough": pt, "transform": tr, "fallback": fb, "path": path})
+        for der in ((None, "plain_sub") if host == "plain" else (None, "spec_sub", "plain_sub")):
+            cfgs.append({"host": host, "deprecated": dep, "passthrough": pt, "transform": tr, "fallback": fb, "path": path, "derive": der})
     for rec in pmap(explore, cfgs):
         run.merge(rec)
     run.add(
         configurations=len(cfgs),
         rule=(
-            "fixpoint BFS per alias configuration (2 hosts x Alias/DeprecatedAlias x passthrough x transform x fallback x 6 path "
-            "shapes (attribute, dotted, [\"key\"], dotted+key, key+dotted, single-quoted key containing a dot) = 192): ops {read alias (and mutate the returned nested fallback at both levels), write alias 5 / values equal to the current (transformed) view / ill-typed, delete alias, "
+            "fixpoint BFS per alias configuration (2 hosts, used directly or through a plain / spec subclass, x Alias/DeprecatedAlias x passthrough x transform x fallback x 6 path "
+            "shapes (attribute, dotted, [\"key\"], dotted+key, key+dotted, single-quoted key containing a dot) = 480): ops {read alias (and mutate the returned nested fallback at both levels), write alias 5 / values equal to the current (transformed) view / ill-typed, delete alias, "
             "read/write/delete target through its own path, copy-on-write helper on alias and target, deepcopy, reset}; state = "
             "(reference (target, override), real instance fingerprint); non-trivial = a new distinct state"
         ),
